@@ -901,7 +901,10 @@ def check_events(prog, rep):
                 rep.violation('EV-emit-sorted', m, 'EventHandler.' + name, 'emit-without-sort',
                               'listeners are called without `_prepare_emit()` (priority order)',
                               lp.lineno)
-            if unparse(lp.iter) != 'self.listeners':
+            # the whole list or an order-preserving full copy of it
+            if unparse(lp.iter) not in ('self.listeners', 'list(self.listeners)',
+                                        'tuple(self.listeners)', 'self.listeners[:]',
+                                        'self.listeners.copy()'):
                 rep.violation('EV-emit-sorted', m, 'EventHandler.' + name, 'listener-subset',
                               'iterates `%s` instead of all of `self.listeners`' %
                               unparse(lp.iter), lp.lineno)
@@ -1041,6 +1044,11 @@ def run(prog, rep, tier):
     from ..flow import check_undefined_attrs
     rep.rule('ATTR-defined', 'every self.X read names an attribute bound somewhere in the class family')
     check_undefined_attrs(prog, rep, ['tenpy/tools/cache.py', 'tenpy/tools/thread.py', 'tenpy/tools/events.py'])
+    rep.rule('EV-emit-snapshot / EV-decorator-forward', 'emit loops iterate over a copy of the '
+             'listeners (disconnect deletes in place); the decorator form of connect forwards all '
+             'parameters')
+    if check_event_dispatch(prog, rep) < 3:
+        raise AnalysisError('EV-emit-snapshot: emit loops / decorator closure not found')
     return rep.finish(
         level='other',
         explanation='Structural necessary conditions of C20 decided on the current source of '
@@ -1087,4 +1095,55 @@ def check_exit_join(prog, rep):
                           'after `self.exit.set()` a path leaves __exit__ without '
                           '`self.worker_thread.join()`: the caller closes the storage while the '
                           'worker may still be executing a queued save', st.lineno)
+    return n
+
+
+# ------------------------------------------------------------------ EV-emit-snapshot / EV-decorator-forward
+def check_event_dispatch(prog, rep):
+    """EV-emit-snapshot: disconnect() removes entries from the list `self.listeners` IN PLACE (fact
+    read off its body). A callback may disconnect (itself) while the event is emitted, so the emit
+    loops iterate over a copy (`list(self.listeners)` / `tuple(..)` / a sorted local), never over
+    `self.listeners` itself -- deleting from a list under iteration skips the next entry.
+    EV-decorator-forward: the decorator form of connect() re-enters connect() from a closure; the
+    inner call passes on every parameter of the outer call (priority AND extra_kwargs)."""
+    m = prog.module('tenpy/tools/events.py')
+    n = 0
+    dis = m.func('EventHandler.disconnect')
+    inplace = any(isinstance(x, ast.Delete) and 'self.listeners[' in unparse(x)
+                  for x in ast.walk(dis)) or any(
+        isinstance(x, ast.Call) and unparse(x.func) in ('self.listeners.remove',
+                                                         'self.listeners.pop')
+        for x in ast.walk(dis))
+    rep.instance('EV-emit-snapshot', {'fact': 'disconnect deletes from self.listeners in place',
+                                      'holds': inplace})
+    for q in ('EventHandler.emit', 'EventHandler.emit_until_result'):
+        f = m.func(q)
+        for lp in ast.walk(f):
+            if isinstance(lp, ast.For) and 'self.listeners' in unparse(lp.iter):
+                n += 1
+                ok = not inplace or unparse(lp.iter) != 'self.listeners'
+                rep.instance('EV-emit-snapshot', {'function': q, 'iterates': unparse(lp.iter),
+                                                  'ok': ok})
+                if not ok:
+                    rep.violation('EV-emit-snapshot', m, q, 'iterates-live-list',
+                                  '`for .. in self.listeners` iterates over the list that '
+                                  'disconnect() deletes from: a listener disconnecting (itself) '
+                                  'during the emit makes the loop skip the next listener', lp.lineno)
+    f = m.func('EventHandler.connect')
+    ps = [p_ for p_ in params(f) if p_ not in ('self', 'callback')]
+    for inner in ast.walk(f):
+        if isinstance(inner, ast.FunctionDef) and inner is not f:
+            for c in ast.walk(inner):
+                if isinstance(c, ast.Call) and unparse(c.func) == 'self.connect':
+                    n += 1
+                    passed = {x.id for a in list(c.args) + [k.value for k in c.keywords]
+                              for x in ast.walk(a) if isinstance(x, ast.Name)}
+                    miss = [p_ for p_ in ps if p_ not in passed]
+                    rep.instance('EV-decorator-forward', {'call': unparse(c), 'missing': miss})
+                    if miss:
+                        rep.violation('EV-decorator-forward', m, 'EventHandler.connect',
+                                      'decorator-drops:' + ','.join(miss),
+                                      'the decorator form registers the function with `%s`, without '
+                                      '%s of the outer call: the listener is later called without '
+                                      'these arguments' % (unparse(c), miss), c.lineno)
     return n
